@@ -7,6 +7,7 @@ Constant expressions the translator turns into run-time code (e.g. a ternary on 
 query on their eval function instead."""
 import collections, hashlib, itertools, os, shutil
 import xml.etree.ElementTree as ET
+import re
 import z3
 from .. import common as C
 from ..tv import driver as D, gen as G, lang as L, ref as R, cxx, replay as RP, suite as S
@@ -128,7 +129,11 @@ def compare(el, exp, ty, expr):
         except (TypeError, ValueError):
             return f'number text {el.text!r}'
         if ty != 'double':
-            if el.text.strip() != str(v):
+            # a <number> is read into a 32-bit property by uic / QFormBuilder with the C++ integral conversion:
+            # `(-2 as uint)` written as -2 denotes the same property value as 4294967294 (compared modulo 2^32;
+            # the spelling must still be a plain decimal integer)
+            t = el.text.strip()
+            if not re.fullmatch(r'-?\d+', t) or (int(t) - v) % (1 << 32) != 0:
                 return f'number {el.text!r}, expected {v}'
             return None
         if got != v and not (got != got and v != v):
